@@ -9,3 +9,10 @@ package sgip
 
 //@ func Timestamp
 //@   trusted
+
+// ---------------------------------------------------------------- header peeking (C02, C03)
+
+//@ func PeekHeader
+//@   props C02,C03
+//@   ensures [C03 short] len(buf) < 20 ==> err != nil
+//@   ensures [C02 fields] len(buf) >= 20 ==> err == nil && int(h.TotalLength) == dbe32(ext(content(buf), 0, 4)) && int(h.CommandID) == dbe32(ext(content(buf), 4, 8)) && int(h.Sequence[0]) == dbe32(ext(content(buf), 8, 12)) && int(h.Sequence[1]) == dbe32(ext(content(buf), 12, 16)) && int(h.Sequence[2]) == dbe32(ext(content(buf), 16, 20))
